@@ -62,4 +62,38 @@ def size : RE → Nat
   | sqrt a => 1 + size a
 
 end RE
+
+/-! ### a verified syntactic checker for well-definedness (robust to the shape of the traced term) -/
+
+/-- sufficient syntactic condition for `0 < eval ρ e`, given a list `pos` of terms known to be positive -/
+def posOK (pos : List RE) : RE → Bool
+  | e@(.sqrt a) => pos.contains e || posOK pos a
+  | e@(.mul a b) => pos.contains e || (posOK pos a && posOK pos b)
+  | e@(.div a b) => pos.contains e || (posOK pos a && posOK pos b)
+  | e@(.add a b) => pos.contains e || (posOK pos a && posOK pos b)
+  | e@(.pow a _) => pos.contains e || posOK pos a
+  | e@(.const n d) => pos.contains e || (decide (0 < n) && decide (0 < d))
+  | e => pos.contains e
+
+/-- sufficient syntactic condition for `eval ρ e ≠ 0` -/
+def nzOK (pos : List RE) : RE → Bool
+  | e@(.mul a b) => posOK pos e || (nzOK pos a && nzOK pos b)
+  | e@(.div a b) => posOK pos e || (nzOK pos a && nzOK pos b)
+  | e@(.pow a _) => posOK pos e || nzOK pos a
+  | e@(.neg a) => posOK pos e || nzOK pos a
+  | e@(.const n d) => posOK pos e || (decide (n ≠ 0) && decide (d ≠ 0))
+  | e => posOK pos e
+
+/-- sufficient syntactic condition for `WD ρ e` -/
+def wdOK (pos : List RE) : RE → Bool
+  | .var _ => true
+  | .const _ _ => true
+  | .add a b => wdOK pos a && wdOK pos b
+  | .sub a b => wdOK pos a && wdOK pos b
+  | .mul a b => wdOK pos a && wdOK pos b
+  | .div a b => wdOK pos a && wdOK pos b && nzOK pos b
+  | .neg a => wdOK pos a
+  | .pow a _ => wdOK pos a
+  | .sqrt a => wdOK pos a && posOK pos a
+
 end HitenModel
